@@ -9,7 +9,7 @@ import importlib.util
 import sys
 import threading
 from pathlib import Path
-from typing import Iterable, NamedTuple, Sequence, Set, Tuple
+from typing import Collection, Iterable, NamedTuple, Sequence, Set, Tuple
 
 from pyrefact import constants, core, parsing, processing
 
@@ -485,8 +485,12 @@ def get_undefined_variables(source: str) -> Set[str]:
 
 
 @processing.fix
-def fix_starred_imports(source: str) -> str:
-    """Replace starred imports with normal `from x import y, z` style imports."""
+def fix_starred_imports(source: str, preserve: Collection[str] = frozenset()) -> str:
+    """Replace starred imports with normal `from x import y, z` style imports.
+
+    Names that other files take from this one (preserve) are wanted as well: a star import also
+    binds what this module only passes on.
+    """
 
     # This is needlessly complicated because the cache has a way of getting invalidated
     # in the middle of it. I don't know why but it shows up on python3.12 on the main
@@ -505,7 +509,8 @@ def fix_starred_imports(source: str) -> str:
         return source
 
     undefined_names = get_undefined_variables(source)
-    for name in undefined_names:
+    passed_on_names = set(preserve) - get_defined_names(root) - get_import_bound_names(root)
+    for name in sorted(undefined_names | passed_on_names):
         if trace_result := trace_origin(name, source):
             if core.match_template(trace_result.ast, template):
                 starred_import_name_mapping[trace_result.ast].add(name)
